@@ -542,3 +542,9 @@ mod tests {
         assert_send_sync::<ShutdownHandle>();
     }
 }
+
+// Verification harnesses (Kani); the sources live outside this repository.
+#[cfg(feature = "verif")]
+mod verif {
+    include!(concat!(env!("VHOST_VERIF_DIR"), "/harness/vub_lib.rs"));
+}
